@@ -363,4 +363,308 @@ example : i8 ∈ IntTy.all ∧ i8.bits < 32 ∧ i8.inRange (-128) ∧
     qOp trivialF (.addsub .add) (.int i8) (.int i8) (.int (-128)) (.int (-128)) false
       = ⟨Verdict.ok, some (.val (.int i32)), .ok (.int (-256))⟩ := by decide
 
+/-! ## Clause-by-clause statements (each operator family of the property, explicitly)
+
+`C13_ops_match_raw_partial` says "Quantity operator = built-in operator on the stored values" for the
+whole family at once.  The theorems below spell out, per clause of the statement, what that built-in
+result *is* in the model: the result type of every operator, and the value in closed form (integral
+reps: exact integer arithmetic under explicit range conditions; floating reps: exactly one
+application of the corresponding instruction of `F` to the stored bit patterns). -/
+
+/-- **Result types, every operator of the family, all 11×11 rep pairs, every `F`, all values.**
+Comparisons give `bool`; `+ -` the promoted rep; `+= -= *= /=` an lvalue of the Quantity's own rep;
+`q*s`, `q/s` the usual-arithmetic-conversion type of (R, T); `s*q`, `s/q` that of (T, R) — and all
+are accepted by both compiler families. -/
+theorem C13_result_types (F : FOps) (R T : RepTy) (a b : Val) (u : Bool) :
+    (∀ c, (qOp F (.cmp c) R T a b u).ty = some .bool ∧ (qOp F (.cmp c) R T a b u).verdict = Verdict.ok) ∧
+    (∀ op, op = ArOp.add ∨ op = ArOp.sub →
+      (qOp F (.addsub op) R T a b u).ty = some (.val (RepTy.uac R R)) ∧
+      (qOp F (.addsub op) R T a b u).verdict = Verdict.ok ∧
+      (qOp F (.addsubAs op) R T a b u).ty = some (.ref R) ∧
+      (qOp F (.addsubAs op) R T a b u).verdict = Verdict.ok) ∧
+    (∀ op, op = ArOp.mul ∨ op = ArOp.div →
+      (qOp F (.scalarR op) R T a b u).ty = some (.val (RepTy.uac R T)) ∧
+      (qOp F (.scalarR op) R T a b u).verdict = Verdict.ok ∧
+      (offered (.scaleAs op) R T u = true →
+        (qOp F (.scaleAs op) R T a b u).ty = some (.ref R) ∧ (qOp F (.scaleAs op) R T a b u).verdict = Verdict.ok)) ∧
+    ((qOp F .mulL R T a b u).ty = some (.val (RepTy.uac T R)) ∧ (qOp F .mulL R T a b u).verdict = Verdict.ok) ∧
+    (offered .divL R T u = true →
+      (qOp F .divL R T a b u).ty = some (.val (RepTy.uac T R)) ∧ (qOp F .divL R T a b u).verdict = Verdict.ok) := by
+  refine ⟨fun c => ⟨rfl, rfl⟩, ?_, ?_, ?_, ?_⟩
+  · intro op hop
+    rcases hop with rfl | rfl <;>
+      simp [qOp, qAddSub, qAddSubAssign, viaMake, rawAssign, rawArith, Verdict.ok]
+  · intro op hop
+    rcases hop with rfl | rfl <;>
+      (refine ⟨by simp [qOp, qScalarRight, viaMake, rawArith], by simp [qOp, qScalarRight, viaMake, rawArith], ?_⟩
+       intro hoff
+       simp only [offered] at hoff
+       simp [qOp, qScaleAssign, hoff, rawAssign, rawArith, Verdict.ok])
+  · simp [qOp, qScalarLeftMul, viaMake, rawArith]
+  · intro hoff
+    simp only [offered, Bool.not_eq_true'] at hoff
+    simp [qOp, qScalarLeftDiv, hoff, viaMake, rawArith]
+
+/-- The promoted rep: `decltype(R + R)` is `int` for the four narrow reps and `R` itself otherwise. -/
+theorem C13_addsub_type_explicit (R : RepTy) (hR : R ∈ RepTy.all) : RepTy.uac R R = R.promote := by
+  cases R with
+  | int t => simp [RepTy.uac, RepTy.promote, uac_self]
+  | flt k => simp [RepTy.uac, RepTy.promote]
+
+theorem cmpInt_spec (a b : Int) :
+    (cmpInt .eq a b = true ↔ a = b) ∧ (cmpInt .ne a b = true ↔ a ≠ b) ∧ (cmpInt .lt a b = true ↔ a < b) ∧
+    (cmpInt .le a b = true ↔ a ≤ b) ∧ (cmpInt .gt a b = true ↔ b < a) ∧ (cmpInt .ge a b = true ↔ b ≤ a) := by
+  simp [cmpInt]
+
+/-- **The six comparisons, integral reps**: on in-range values they are the mathematical comparisons
+of the stored integers (`cmpInt_spec`), type `bool`, never undefined — for every integral rep,
+including the narrow ones (promotion preserves the values). -/
+theorem C13_cmp_int (F : FOps) (c : CmpOp) (t : IntTy) (ht : t ∈ IntTy.all) (a b : Int)
+    (ha : t.inRange a) (hb : t.inRange b) (u : Bool) :
+    qOp F (.cmp c) (.int t) (.int t) (.int a) (.int b) u
+      = ⟨Verdict.ok, some .bool, .ok (.bool (cmpInt c a b))⟩ := by
+  have hp := promote_mem t ht
+  simp only [qOp, qCmp, rawCmp, RepTy.uac, uac_self,
+    convert_int_inRange F t t.promote hp a (promote_inRange t ht a ha),
+    convert_int_inRange F t t.promote hp b (promote_inRange t ht b hb), evBind, cmpIn]
+
+/-- **The six comparisons, floating reps**: exactly one comparison instruction of `F` on the two
+stored bit patterns (no conversion, no arithmetic), type `bool`. -/
+theorem C13_cmp_flt (F : FOps) (c : CmpOp) (k : FltK) (x y : Nat) (u : Bool) :
+    qOp F (.cmp c) (.flt k) (.flt k) (.flt x) (.flt y) u
+      = ⟨Verdict.ok, some .bool, .ok (.bool (F.cmp k c x y))⟩ := by
+  simp [qOp, qCmp, rawCmp, RepTy.uac, convert, evBind, cmpIn]
+
+example : qOp trivialF (.cmp .lt) (.int u8) (.int u8) (.int 200) (.int 3) false
+    = ⟨Verdict.ok, some .bool, .ok (.bool false)⟩ ∧ i8.inRange (-128) ∧
+    qOp trivialF (.cmp .le) (.int i8) (.int i8) (.int (-128)) (.int (-128)) false
+      = ⟨Verdict.ok, some .bool, .ok (.bool true)⟩ := by decide
+
+/-- **`+=` / `-=`, integral reps, result representable**: the Quantity holds exactly `a ± b`; the
+result is the lvalue itself (`ref R`); no undefined behaviour. -/
+theorem C13_addsub_assign_exact (F : FOps) (op : ArOp) (t : IntTy) (ht : t ∈ IntTy.all) (a b r : Int)
+    (ha : t.inRange a) (hb : t.inRange b)
+    (hop : (op = .add ∧ r = a + b) ∨ (op = .sub ∧ r = a - b)) (hr : t.inRange r) (u : Bool) :
+    qOp F (.addsubAs op) (.int t) (.int t) (.int a) (.int b) u
+      = ⟨Verdict.ok, some (.ref (.int t)), .ok (.int r)⟩ := by
+  have hop' : (op = .add ∧ r = a + b) ∨ (op = .sub ∧ r = a - b) ∨ (op = .mul ∧ r = a * b) := by
+    rcases hop with h | h
+    · exact Or.inl h
+    · exact Or.inr (Or.inl h)
+  have h := rawArith_int_exact F op t ht a b r ha hb hop' (promote_inRange t ht r hr)
+  simp only [qOp, qAddSubAssign, rawAssign, h, evBind, convert_int_inRange F t.promote t ht r hr]
+
+/-- **`+=` / `-=` on the narrow reps never has undefined behaviour**: the sum is formed in `int` and
+converted back to `R` (modular), exactly as the built-in compound assignment does. -/
+theorem C13_addsub_assign_subint (F : FOps) (t : IntTy) (ht : t ∈ IntTy.all) (h : t.bits < 32)
+    (a b : Int) (ha : t.inRange a) (hb : t.inRange b) (u : Bool) :
+    qOp F (.addsubAs .add) (.int t) (.int t) (.int a) (.int b) u
+      = ⟨Verdict.ok, some (.ref (.int t)), .ok (.int (t.wrap (a + b)))⟩ ∧
+    qOp F (.addsubAs .sub) (.int t) (.int t) (.int a) (.int b) u
+      = ⟨Verdict.ok, some (.ref (.int t)), .ok (.int (t.wrap (a - b)))⟩ := by
+  have hp : t.promote = i32 := by simp [IntTy.promote, h]
+  have hr : i32.inRange (a + b) ∧ i32.inRange (a - b) := by
+    rcases subInt_cases t ht h with rfl|rfl|rfl|rfl <;>
+      (simp only [IntTy.inRange, IntTy.lo, IntTy.hi, i8, u8, i16, u16, i32] at ha hb ⊢
+       simp at ha hb ⊢
+       omega)
+  have hne : (RepTy.int i32 = RepTy.int t) = False := by
+    rcases subInt_cases t ht h with rfl|rfl|rfl|rfl <;> simp [i8, u8, i16, u16, i32]
+  constructor
+  · have h1 := rawArith_int_exact F .add t ht a b (a + b) ha hb (Or.inl ⟨rfl, rfl⟩) (by rw [hp]; exact hr.1)
+    rw [hp] at h1
+    simp [qOp, qAddSubAssign, rawAssign, h1, evBind, convert, hne]
+  · have h1 := rawArith_int_exact F .sub t ht a b (a - b) ha hb (Or.inr (Or.inl ⟨rfl, rfl⟩)) (by rw [hp]; exact hr.2)
+    rw [hp] at h1
+    simp [qOp, qAddSubAssign, rawAssign, h1, evBind, convert, hne]
+
+example : qOp trivialF (.addsubAs .add) (.int u8) (.int u8) (.int 200) (.int 100) false
+    = ⟨Verdict.ok, some (.ref (.int u8)), .ok (.int 44)⟩ := by decide
+
+/-- **`+=` / `-=`, floating reps**: one `F` instruction on the stored bit patterns, stored back
+without conversion. -/
+theorem C13_addsub_assign_flt (F : FOps) (op : ArOp) (hop : op = .add ∨ op = .sub) (k : FltK) (x y : Nat) (u : Bool) :
+    qOp F (.addsubAs op) (.flt k) (.flt k) (.flt x) (.flt y) u
+      = ⟨Verdict.ok, some (.ref (.flt k)), .ok (.flt (F.bin k op x y))⟩ := by
+  rcases hop with rfl | rfl <;>
+    simp [qOp, qAddSubAssign, rawAssign, rawArith, RepTy.uac, convert, evBind, arithIn, Verdict.ok]
+
+/-- **Scalar `*` in both operand orders, `*=`, same integral type, product representable in the
+promoted type (resp. in `R`)**: exact product; `q * s` and `s * q` have the promoted rep, `q *= s`
+keeps `R`. -/
+theorem C13_scalar_mul_exact (F : FOps) (t : IntTy) (ht : t ∈ IntTy.all) (a s : Int)
+    (ha : t.inRange a) (hs : t.inRange s) (hr : t.promote.inRange (a * s)) (u : Bool) :
+    qOp F (.scalarR .mul) (.int t) (.int t) (.int a) (.int s) u
+      = ⟨Verdict.ok, some (.val (.int t.promote)), .ok (.int (a * s))⟩ ∧
+    qOp F .mulL (.int t) (.int t) (.int a) (.int s) u
+      = ⟨Verdict.ok, some (.val (.int t.promote)), .ok (.int (a * s))⟩ ∧
+    (t.inRange (a * s) →
+      qOp F (.scaleAs .mul) (.int t) (.int t) (.int a) (.int s) u
+        = ⟨Verdict.ok, some (.ref (.int t)), .ok (.int (a * s))⟩) := by
+  have h1 := rawArith_int_exact F .mul t ht a s (a * s) ha hs (Or.inr (Or.inr ⟨rfl, rfl⟩)) hr
+  have h2 := rawArith_int_exact F .mul t ht s a (s * a) hs ha (Or.inr (Or.inr ⟨rfl, rfl⟩))
+    (by rw [Int.mul_comm]; exact hr)
+  refine ⟨by simpa [qOp, qScalarRight, viaMake] using h1,
+          by rw [Int.mul_comm a s]; simpa [qOp, qScalarLeftMul, viaMake] using h2, ?_⟩
+  intro hfit
+  simp only [qOp, qScaleAssign, shorthandOk, RepTy.isIntegral, Bool.not_true, Bool.or_true, if_true,
+    rawAssign, h1, evBind, convert_int_inRange F t.promote t ht (a * s) hfit]
+
+/-- **`s * q = q * s` for all 8×8 pairs of integral reps** (type and value, including the undefined
+cases): the left-hand scalar overload is not a different operation. -/
+theorem C13_scalar_mul_comm_int (F : FOps) (tr ts : IntTy) (hr : tr ∈ IntTy.all) (hs : ts ∈ IntTy.all)
+    (a s : Int) (u : Bool) :
+    qOp F .mulL (.int tr) (.int ts) (.int a) (.int s) u
+      = qOp F (.scalarR .mul) (.int tr) (.int ts) (.int a) (.int s) u := by
+  have hc := uac_comm ts tr hs hr
+  simp only [qOp, qScalarLeftMul, qScalarRight, viaMake, rawArith, RepTy.uac, hc]
+  have hmod : ¬ (ArOp.mul = ArOp.mod) := by decide
+  simp only [hmod, false_and, if_false]
+  have conv : ∀ (t : IntTy) (x : Int), ∃ y, convert F (.int t) (.int (IntTy.uac tr ts)) (.int x) = .ok (.int y) := by
+    intro t x
+    unfold convert
+    split
+    · exact ⟨x, rfl⟩
+    · exact ⟨_, rfl⟩
+  obtain ⟨a', ha'⟩ := conv tr a
+  obtain ⟨s', hs'⟩ := conv ts s
+  simp only [ha', hs', evBind, arithIn, mulIn, Int.mul_comm s' a']
+
+example : qOp trivialF .mulL (.int i8) (.int u32) (.int (-1)) (.int 2) false
+    = ⟨Verdict.ok, some (.val (.int u32)), .ok (.int 4294967294)⟩ := by decide
+
+/-- **Scalar `/` (`q / s`), `/=`, same integral type**: defined exactly when the divisor is non-zero
+and the operands are not (lowest value of the promoted type, −1); the result is the truncated
+quotient, of the promoted rep for `q / s` and of rep `R` for `q /= s` (when it is representable). -/
+theorem C13_scalar_div_int (F : FOps) (t : IntTy) (ht : t ∈ IntTy.all) (a s : Int)
+    (ha : t.inRange a) (hs : t.inRange s) (hs0 : s ≠ 0) (h : ¬ (a = t.promote.lo ∧ s = -1)) (u : Bool) :
+    qOp F (.scalarR .div) (.int t) (.int t) (.int a) (.int s) u
+      = ⟨Verdict.ok, some (.val (.int t.promote)), .ok (.int (Int.tdiv a s))⟩ ∧
+    (t.inRange (Int.tdiv a s) →
+      qOp F (.scaleAs .div) (.int t) (.int t) (.int a) (.int s) u
+        = ⟨Verdict.ok, some (.ref (.int t)), .ok (.int (Int.tdiv a s))⟩) := by
+  have h1 := rawArith_int_div F t ht a s ha hs hs0 h
+  refine ⟨by simpa [qOp, qScalarRight, viaMake] using h1, ?_⟩
+  intro hfit
+  simp only [qOp, qScaleAssign, shorthandOk, RepTy.isIntegral, Bool.not_true, Bool.or_true, if_true,
+    rawAssign, h1, evBind, convert_int_inRange F t.promote t ht _ hfit]
+
+/-- Division by a zero scalar is undefined behaviour in the Quantity operator exactly as in the
+built-in one (it is not turned into anything else). -/
+theorem C13_scalar_div_zero (F : FOps) (t : IntTy) (ht : t ∈ IntTy.all) (a : Int) (ha : t.inRange a) (u : Bool) :
+    (qOp F (.scalarR .div) (.int t) (.int t) (.int a) (.int 0) u).val = .ub "division by zero" := by
+  have hp := promote_mem t ht
+  have h0 : t.inRange 0 := ⟨lo_nonpos t ht, hi_nonneg t ht⟩
+  simp [qOp, qScalarRight, viaMake, rawArith, RepTy.uac, uac_self,
+    convert_int_inRange F t t.promote hp a (promote_inRange t ht a ha),
+    convert_int_inRange F t t.promote hp 0 (promote_inRange t ht 0 h0), evBind, arithIn, divIn, stepVal]
+
+example : i8 ∈ IntTy.all ∧ i8.inRange (-128) ∧ i8.inRange (-1) ∧ ¬ ((-128 : Int) = i8.promote.lo ∧ (-1 : Int) = -1) ∧
+    qOp trivialF (.scalarR .div) (.int i8) (.int i8) (.int (-128)) (.int (-1)) false
+      = ⟨Verdict.ok, some (.val (.int i32)), .ok (.int 128)⟩ ∧
+    qOp trivialF (.scaleAs .div) (.int i8) (.int i8) (.int (-128)) (.int (-1)) false
+      = ⟨Verdict.ok, some (.ref (.int i8)), .ok (.int (-128))⟩ := by decide
+
+/-- **Scalar `* /` in both operand orders and `*= /=`, floating reps (same type)**: one `F`
+instruction on the bit patterns, operands in source order, no conversion. -/
+theorem C13_scalar_flt (F : FOps) (op : ArOp) (hop : op = .mul ∨ op = .div) (k : FltK) (x s : Nat) (u : Bool) :
+    qOp F (.scalarR op) (.flt k) (.flt k) (.flt x) (.flt s) u
+      = ⟨Verdict.ok, some (.val (.flt k)), .ok (.flt (F.bin k op x s))⟩ ∧
+    qOp F (.scaleAs op) (.flt k) (.flt k) (.flt x) (.flt s) u
+      = ⟨Verdict.ok, some (.ref (.flt k)), .ok (.flt (F.bin k op x s))⟩ ∧
+    qOp F .mulL (.flt k) (.flt k) (.flt x) (.flt s) u
+      = ⟨Verdict.ok, some (.val (.flt k)), .ok (.flt (F.bin k .mul s x))⟩ ∧
+    qOp F .divL (.flt k) (.flt k) (.flt x) (.flt s) u
+      = ⟨Verdict.ok, some (.val (.flt k)), .ok (.flt (F.bin k .div s x))⟩ := by
+  rcases hop with rfl | rfl <;>
+    simp [qOp, qScalarRight, qScaleAssign, qScalarLeftMul, qScalarLeftDiv, shorthandOk, viaMake, rawAssign,
+      rawArith, RepTy.uac, RepTy.isIntegral, convert, evBind, arithIn, Verdict.ok]
+
+/-- **Round trip on floating bit patterns, spelled out**: for each of the three floating reps and
+every bit pattern — NaN payloads, signalling NaNs, infinities, both zeros, denormals —
+`unit(x).in(unit)` is that bit pattern; no instruction of `F` is involved (`qRoundTrip` does not
+take `F`). -/
+theorem C13_roundtrip_float_bits (k : FltK) (bits : Nat) :
+    qRoundTrip (.flt k) (.flt bits) = .flt bits := rfl
+
+example : qRoundTrip (.flt .f32) (.flt 0x7f812345) = .flt 0x7f812345 ∧            -- signalling NaN with payload
+    qRoundTrip (.flt .f32) (.flt 0x80000000) = .flt 0x80000000 ∧                   -- -0.0
+    qRoundTrip (.flt .f64) (.flt 0xfff0000000000000) = .flt 0xfff0000000000000 ∧   -- -inf
+    qRoundTrip (.flt .f80) (.flt 0x7fffc000000000012345) = .flt 0x7fffc000000000012345 := by decide
+
+/-- `QuantityMaker::operator()` deduces the rep from its argument, so it never narrows: the made
+quantity has the argument's type and holds the argument. -/
+theorem C13_maker_exact (t : RepTy) (x : Val) : (makeQty t x).rep = t ∧ (makeQty t x).value = x ∧
+    narrows t t = false := by
+  refine ⟨rfl, rfl, ?_⟩
+  cases t <;> simp [narrows]
+
+/-- **Same-unit `+` / `-`, every integral rep, result representable in the promoted type**: exact sum
+or difference, of the promoted rep (generalises `C13_subint_addsub_exact`, where the premise is
+automatic). -/
+theorem C13_addsub_exact (F : FOps) (op : ArOp) (t : IntTy) (ht : t ∈ IntTy.all) (a b r : Int)
+    (ha : t.inRange a) (hb : t.inRange b)
+    (hop : (op = .add ∧ r = a + b) ∨ (op = .sub ∧ r = a - b)) (hr : t.promote.inRange r) (u : Bool) :
+    qOp F (.addsub op) (.int t) (.int t) (.int a) (.int b) u
+      = ⟨Verdict.ok, some (.val (.int t.promote)), .ok (.int r)⟩ := by
+  have hop' : (op = .add ∧ r = a + b) ∨ (op = .sub ∧ r = a - b) ∨ (op = .mul ∧ r = a * b) := by
+    rcases hop with h | h
+    · exact Or.inl h
+    · exact Or.inr (Or.inl h)
+  simpa [qOp, qAddSub, viaMake] using rawArith_int_exact F op t ht a b r ha hb hop' hr
+
+example : i32 ∈ IntTy.all ∧ i32.inRange 2147483647 ∧ i32.promote.inRange (2147483647 - 1) ∧
+    qOp trivialF (.addsub .sub) (.int i32) (.int i32) (.int 2147483647) (.int 1) false
+      = ⟨Verdict.ok, some (.val (.int i32)), .ok (.int 2147483646)⟩ ∧
+    -- and outside the premise the model reports the undefined behaviour of the built-in operator
+    (qOp trivialF (.addsub .add) (.int i32) (.int i32) (.int 2147483647) (.int 1) false).val
+      = .ub "signed overflow in addition" := by decide
+
+/-- **Same-unit `+` / `-`, floating reps**: one `F` instruction on the stored bit patterns. -/
+theorem C13_addsub_flt (F : FOps) (op : ArOp) (hop : op = .add ∨ op = .sub) (k : FltK) (x y : Nat) (u : Bool) :
+    qOp F (.addsub op) (.flt k) (.flt k) (.flt x) (.flt y) u
+      = ⟨Verdict.ok, some (.val (.flt k)), .ok (.flt (F.bin k op x y))⟩ := by
+  rcases hop with rfl | rfl <;>
+    simp [qOp, qAddSub, viaMake, rawArith, RepTy.uac, convert, evBind, arithIn, Verdict.ok]
+
+/-- **Same-unit `%`, integral reps of at least 32 bits** (outside F4): defined unless the divisor is
+zero or the operands are (lowest, −1); the remainder of truncated division, of rep `R`. -/
+theorem C13_mod_int (F : FOps) (t : IntTy) (_ht : t ∈ IntTy.all) (h32 : ¬ t.bits < 32) (a b : Int)
+    (hb0 : b ≠ 0) (h : ¬ (a = t.lo ∧ b = -1)) (u : Bool) :
+    qOp F .mod (.int t) (.int t) (.int a) (.int b) u
+      = ⟨Verdict.ok, some (.val (.int t)), .ok (.int (Int.tmod a b))⟩ := by
+  have hF4 : inF4 .mod (.int t) = false := by simp [inF4, h32]
+  rw [C13_ops_match_raw_partial F .mod (.int t) (.int t) (.int a) (.int b) u rfl hF4]
+  simp [rawOp, rawArith, RepTy.isIntegral, RepTy.uac, uac_self_of_ge32 t h32, convert, evBind, arithIn, stepVal,
+    modIn_ok' t a b hb0 h, Verdict.ok]
+
+/-- **Unary `+` / `-`, integral reps of at least 32 bits** (outside F4): `+q` holds the same value;
+`-q` holds `-a` whenever that is representable (always, modulo 2^N, for unsigned reps). -/
+theorem C13_unary_int (F : FOps) (t : IntTy) (ht : t ∈ IntTy.all) (h32 : ¬ t.bits < 32) (a : Int) (b : Val) (u : Bool) :
+    qOp F (.un .pos) (.int t) (.int t) (.int a) b u = ⟨Verdict.ok, some (.val (.int t)), .ok (.int a)⟩ ∧
+    (t.inRange (-a) →
+      qOp F (.un .neg) (.int t) (.int t) (.int a) b u = ⟨Verdict.ok, some (.val (.int t)), .ok (.int (-a))⟩) := by
+  have hF4 : ∀ w, inF4 (.un w) (.int t) = false := by intro w; simp [inF4, h32]
+  constructor
+  · rw [C13_ops_match_raw_partial F (.un .pos) (.int t) (.int t) (.int a) b u rfl (hF4 _)]
+    simp [rawOp, rawUnary, RepTy.promote, promote_of_ge32 t h32, convert, evBind, Verdict.ok]
+  · intro hr
+    rw [C13_ops_match_raw_partial F (.un .neg) (.int t) (.int t) (.int a) b u rfl (hF4 _)]
+    simp [rawOp, rawUnary, RepTy.promote, promote_of_ge32 t h32, convert, evBind, stepVal, negIn_ok t ht a hr, Verdict.ok]
+
+/-- **Unary `+` / `-`, floating reps**: `+q` returns the stored bit pattern unchanged (no instruction
+at all — NaN payloads and signed zeros survive); `-q` is exactly one negation instruction of `F`. -/
+theorem C13_unary_flt (F : FOps) (k : FltK) (x : Nat) (b : Val) (u : Bool) :
+    qOp F (.un .pos) (.flt k) (.flt k) (.flt x) b u = ⟨Verdict.ok, some (.val (.flt k)), .ok (.flt x)⟩ ∧
+    qOp F (.un .neg) (.flt k) (.flt k) (.flt x) b u = ⟨Verdict.ok, some (.val (.flt k)), .ok (.flt (F.neg k x))⟩ := by
+  constructor <;>
+    simp [qOp, qUnary, viaListInit, listInitQty, rawUnary, RepTy.promote, narrows, convert, evBind, qtyTy, Verdict.ok]
+
+example : u32 ∈ IntTy.all ∧ ¬ u32.bits < 32 ∧
+    qOp trivialF .mod (.int i64) (.int i64) (.int (-7)) (.int 3) false = ⟨Verdict.ok, some (.val (.int i64)), .ok (.int (-1))⟩ ∧
+    qOp trivialF (.un .neg) (.int u32) (.int u32) (.int 1) (.int 0) false
+      = ⟨Verdict.ok, some (.val (.int u32)), .ok (.int 4294967295)⟩ ∧
+    qOp trivialF (.un .pos) (.flt .f32) (.flt .f32) (.flt 0x7f812345) (.flt 0) false
+      = ⟨Verdict.ok, some (.val (.flt .f32)), .ok (.flt 0x7f812345)⟩ := by decide
+
 end Au
